@@ -9,6 +9,7 @@ abbrev Bytes := List UInt8
 inductive PyErr
   | valueError | overflowError | structError | indexError | typeError | assertion | fellThrough
   | runtimeError | other
+  | unsupported      -- raised only by the stub the translator emits for a function outside its subset
 deriving Repr, DecidableEq, Inhabited
 
 namespace Py
